@@ -67,6 +67,11 @@ CLAIMED["C08"] = dict(
    note="utils.AsciiLower is a pure function of its argument (proved panic-free and length-preserving on emptiness; its case mapping itself is not specified); validateNonShorthand trusted to leave its inputs unchanged; KnownProp.String/Shortand.String trusted table reads; tokens assumed non-nil in token lists (waived preconditions); float-as-real",
    ref="DESIGN.md §4 C08")
 
+CLAIMED["C13"] = dict(
+   text="Width clauses of the table property are under contract and proved for all inputs: fixedTableLayout ends with table.Width == sum(table.ColumnWidths) + border-spacing*(columns+1) whenever the table has a column — 'the columns plus spacing exactly fill the table's used width' — by loop invariants over the mathematical sum of a slice (the excess is shared equally, or the table is widened to its columns), and the layout helper sum() returns that sum; autoTableLayout leaves the used width >= the table's minimum content width on every path (auto and specified widths, excess reduction). 'No two cells on the same grid slot' FAILS on the real code (wrapTable checks only the first slot: recorded as a known finding with its input). NOT under contract: shared column edges and row heights, rowspan resolution, border-spacing positions (tableLayout), the column width distribution of the automatic layout (sum of the distributed widths), non-negative sizes.",
+   note="float-as-real; the sum of a slice is an uninterpreted function whose defining equations are instantiated per occurrence (engine/sumtheory.go); MaybeFloat.V dispatch assumed; tableAndColumnsPreferredWidths trusted to return min-content <= max-content; distributeExcessWidth trusted to write only the column widths; loops havoc the whole heap (modifies anything) and the invariants restate what is needed",
+   ref="DESIGN.md §4 C13")
+
 NOT_YET = {}
 
 NA = {
